@@ -230,6 +230,12 @@ macro_rules! options {
                     $($name: MMTKOption::new($default, $validator)),*
                 }
             }
+
+            /// Verification hook: `(name, Debug rendering of the value)` of every option.
+            #[cfg(mmtk_verif)]
+            pub fn verif_snapshot(&self) -> Vec<(&'static str, String)> {
+                vec![$((stringify!($name), format!("{:?}", *self.$name))),*]
+            }
         }
     ]
 }
